@@ -58,8 +58,7 @@ func (m *lm) c07Truncate(round int) map[ref.Hash]struct{} {
 	m.label("op:truncate")
 	if t.Err != nil {
 		if errors.Is(t.Err, sim.ErrStuck) {
-			m.addViol("C08", "stuck:truncate", "truncate did not return")
-			m.stuck = t.Err
+			m.stuckViol("truncate", t.Err)
 			return nil
 		}
 		// the cut is the 1000th distinct ancestor of an arbitrarily chosen tip: if some tip has fewer live ancestors the
